@@ -271,3 +271,30 @@ def c04(c):
         exhaustive=False,
         exhaustive_subspaces=["all 65535 non-null offsets of the 64 KiB region through load-cell, store-cell and UNSAFE_sandboxed, for one instance per round"],
         assumptions=["offset 0 is the null representation (the first byte of the region is never handed out as an object)"]))
+
+
+# --------------------------------------------------------------------- C03
+@plan("C03")
+def c03(c):
+    units, runs = [], []
+    for n in ["ilp32", "ilp32f", "wide"]:
+        nm = "c03_" + n
+        units.append(dict(name=nm, srcs=[D + "c03_ptrinv.cpp"], build="asan0", defs=EXC + ["CFG=vsbx_" + n]))
+        runs.append(dict(unit=nm, label=nm + "_hostile", args=[0]))
+        runs += sliced(nm, 2 if not c.thorough else 4, label=nm + "_chains", args=[1])
+    units.append(dict(name="c03_sweep", srcs=[D + "c03_ptrinv.cpp"], build="plain", defs=EXC + ["CFG=vsbx_ilp32f"]))
+    runs += sliced("c03_sweep", 4 if not c.thorough else c.ncpu - 1, label="c03_sweep", args=[2])
+    return dict(units=units, runs=runs, evidence=dict(
+        level="exploration",
+        rule="(a) hostile guest representations (boundaries, powers of two +-1, application and foreign-region addresses, random 32/64-bit) in all 18 "
+             "to-application positions of three simultaneously live model instances; (b) random chains (depth <= 8) of pointer-producing operations "
+             "(+,-,+=,-=,++,--,&[n] on char/int/long/struct/pointer pointees, dereference of pointer-to-pointer with hostile content, &p->field / "
+             "&p->arr[i] / nested, the three sandbox casts, opaque round trip, malloc_in_sandbox(count), app_pointer::to_tainted, "
+             "copy_memory_or_grant_access, &*p, &null[n], copy_and_verify_address) from null / first byte / last byte / last struct / last int / "
+             "interior; after every step either an abort was observed or the pointer is null or inside the region of the sandbox it came from; "
+             "(c) representations 0..2^32-1 through load-cell and load-array-element (stride 509 quick, every value thorough). "
+             "Dereferences whose pointee straddles the region end are not generated (no prescribed outcome); address computations on them are. "
+             "distinct_nontrivial = distinct (instance, representation) pairs + distinct chain histories + swept representations.",
+        exhaustive=False,
+        exhaustive_subspaces=["thorough tier only: all 2^32 guest representations through the memory-cell and array-element load positions"],
+        assumptions=["inside-ness of a translated representation is the model backend's masking guarantee; the check tests RLBox's plumbing (translation applied, right instance)"]))
